@@ -288,8 +288,17 @@ func init() {
 		if r.addr == nil {
 			tpanic("reflect: reflect.Value.SetInt using unaddressable value")
 		}
+		checkFrozen(r.addr)
+		b, ok := r.t.Underlying().(*types.Basic)
+		if !ok || b.Info()&types.IsInteger == 0 || b.Info()&types.IsUnsigned != 0 {
+			tpanic("reflect: call of reflect.Value.SetInt on %v Value", r.t)
+		}
+		if sx, ok := args[1].(symInt); ok {
+			*r.addr = resize(sx, b.Kind())
+			return nil
+		}
 		x := args[1].(int64)
-		switch r.t.Underlying().(*types.Basic).Kind() {
+		switch b.Kind() {
 		case types.Int:
 			*r.addr = int(x)
 		case types.Int8:
@@ -300,8 +309,6 @@ func init() {
 			*r.addr = int32(x)
 		case types.Int64:
 			*r.addr = x
-		default:
-			tpanic("reflect: SetInt on %v", r.t)
 		}
 		return nil
 	})
